@@ -5,6 +5,7 @@ CONSTANTS
   Statuses = {302}
   Forms = {"abs"}
   Methods = {"GET"}
+  Origins <- SetterOrigin
   MaxSet = {2}
   MaxHops = 2
 VIEW MCView
